@@ -42,10 +42,10 @@ func loadsGlobal(v ssa.Value) (*ssa.Global, bool) {
 
 func checkC07(c *Check) {
 	p := c.P
-	c.Explanation = "C07 (structural clauses): (1) no map iteration reachable from Parser.Parse or the pbutil encoders reaches an order-sensitive effect on the model or the output (R-ORDER, same engine as C19); (2) the generated recogniser constructors are called only from the thread-safe wrappers on the compile path, and each wrapper replaces the Interpreter with a simulator whose ATN, DFA slice and prediction cache are created in that call, none read from a package variable; (3) every NewThreadSafeSyslLexer on the compile path is paired with a deferred DeleteLexerState of the same value on all paths, the state table is the lock-free hashmap and is touched only by its accessor functions; (4) no repository package variable is written by a function reachable from the compile entry points (outside init); (5) a closure started on an errgroup goroutine writes only variables declared inside the spawning loop body or elements indexed by the loop's induction variable. Data-race freedom inside the ANTLR runtime and byte-identity of two runs are not decided."
+	c.Explanation = "C07 (structural clauses): (1) no map iteration reachable from Parser.Parse or the pbutil encoders reaches an order-sensitive effect on the model or the output (R-ORDER, same engine as C19); (2) the generated recogniser constructors are called only from the thread-safe wrappers on the compile path, and each wrapper replaces the Interpreter with a simulator whose ATN, DFA slice and prediction cache are created in that call, none read from a package variable; (3) every NewThreadSafeSyslLexer on the compile path is paired with a deferred DeleteLexerState of the same value on all paths, the state table is the lock-free hashmap and is touched only by its accessor functions; (4) no repository package variable is written by a function reachable from the compile entry points (outside init); (5) a closure started on an errgroup goroutine writes only variables declared inside the spawning loop body or elements indexed by the loop's induction variable; (6) the file table shared by the parallel import fetchers is tested and claimed in one critical section before the file is read, accessed only under its mutex while fetchers run, and the already-claimed branch reads no field that the claiming goroutine still writes (the rules of C05 on the collector). Data-race freedom inside the ANTLR runtime and byte-identity of two runs are not decided."
 	c.Assumptions = append(c.Assumptions,
 		"github.com/cornelk/hashmap.HashMap is safe for concurrent use (library contract)",
-		"writes performed by callees of a goroutine closure on shared state are decided by the lock rule (C05 LOCKED-ACCESS) and by rule 4, not by rule 5",
+		"writes performed by callees of a goroutine closure on shared state are decided by the lock rule (rule 6, LOCKED-ACCESS) and by rule 4, not by rule 5",
 		"antlr.NewDFA / NewATNDeserializer / NewPredictionContextCache return fresh objects")
 	arrivalOrder(c, "ARRIVAL-ORDER")
 	reach, entries := compileReach(p)
@@ -81,6 +81,12 @@ func checkC07(c *Check) {
 	c07Globals(c, fns)
 	// (5) goroutine captures
 	c07Captures(c, fns)
+	// (6) the file table shared by the import fetchers of one compilation
+	if ic := findImportClosure(c); ic == nil || ic.collector == nil || ic.canon == nil {
+		c.Undecidedf("ANCHOR", "import closure", "-", "cannot resolve the retrieved-list type / collector / canonicaliser in pkg/parse: unresolved anchor")
+	} else {
+		collectorSharing(c, ic)
+	}
 }
 
 func c07Recognisers(c *Check, reach map[*ssa.Function]reachInfo) {
@@ -253,6 +259,21 @@ func c07Globals(c *Check, fns []*ssa.Function) {
 					addr, what = x.Addr, "store"
 				case *ssa.MapUpdate:
 					addr, what = x.Map, "map update"
+				case ssa.CallInstruction:
+					// a mutating method of a sync / sync/atomic container held in a package
+					// variable (sync.Map.Store, atomic.Value.Store, sync.Pool.Put, …): a
+					// process-wide memo or counter
+					o := calleeObj(x)
+					if o == nil || o.Pkg() == nil || (o.Pkg().Path() != "sync" && o.Pkg().Path() != "sync/atomic") || len(x.Common().Args) == 0 {
+						return
+					}
+					switch o.Name() {
+					case "Store", "LoadOrStore", "Swap", "CompareAndSwap", "Delete", "LoadAndDelete", "CompareAndDelete", "Put", "Add", "And", "Or", "Clear",
+						"StoreInt32", "StoreInt64", "StoreUint32", "StoreUint64", "StorePointer", "AddInt32", "AddInt64", "AddUint32", "AddUint64":
+						addr, what = x.Common().Args[0], objLocalName(o)
+					default:
+						return
+					}
 				default:
 					return
 				}
